@@ -37,6 +37,7 @@ Direct oracle (failing-input search, on the implementation only):
 
 from __future__ import annotations
 
+import asyncio
 import itertools
 import os
 import warnings
@@ -341,13 +342,26 @@ class Impl:
         except LiquidSyntaxError:
             return None
         pairs, raws = self.ast_obs(t.nodes)
-        outs = {}
+        outs, aouts = {}, {}
         for di, d in enumerate(datas):
             for sup in (True, False):
                 env.suppress_blank_control_flow_blocks = sup
                 outs[(di, sup)] = t.render(**d)
+                aouts[(di, sup)] = run_coro(t.render_async(**d))
         env.suppress_blank_control_flow_blocks = True
-        return {"pairs": pairs, "raws": raws, "outs": outs}
+        return {"pairs": pairs, "raws": raws, "outs": outs, "aouts": aouts}
+
+
+def run_coro(coro: Any) -> Any:
+    """Run a coroutine to completion.  Rendering this fragment never really
+    suspends, so the coroutine is stepped by hand (an event loop per render
+    would dominate the run); a render that does suspend is a machinery error."""
+    try:
+        coro.send(None)
+    except StopIteration as e:
+        return e.value
+    coro.close()
+    raise RuntimeError("render_async suspended: this harness expects rendering of the fragment not to await I/O")
 
 
 def split_tokens(tokens: list, splits: dict[int, int]) -> list:
@@ -930,6 +944,7 @@ def main(chk: C.Check, build: C.Build) -> None:
         texts_expected: list[str] | None = None
         nums = []
         sfx = f"_{pi}{'s' if do_split else ''}"
+        async_items: list[dict[str, Any]] = []
         outcome_class: str | None = None
 
         def class_changed(src: str, cls: str, detail: str) -> None:
@@ -1019,21 +1034,39 @@ def main(chk: C.Check, build: C.Build) -> None:
                 if texts_expected is None:
                     texts_expected = [t for t, _, _ in res["pairs"]]
                 for (di, sup), out in res["outs"].items():
-                    stats["renders"] += 1
-                    evaluations += 1
                     d = datas[di]
-                    # oracle: only whitespace changes
-                    if erase(out) != ref_erased[di]:
-                        chk.finding("oracle:non-whitespace-changed",
-                                    f"markers/default_trim/suppression changed more than whitespace: {src!r} "
-                                    f"default_trim={dt!r} suppress={sup} gives {out!r}; without whitespace control {ref_out[di]!r}",
-                                    {"source": src, "default_trim": dt, "suppress": sup, "data": d, "output": out,
-                                     "reference_output": ref_out[di]})
-                    # oracle: verbatim when no trimming is in force
-                    if no_trim_markers and dt == "+" and not sup and out != ref_out[di]:
-                        chk.finding("oracle:not-verbatim",
-                                    f"no trimming in force but {src!r} renders {out!r}, verbatim text is {ref_out[di]!r}",
-                                    {"source": src, "data": d, "output": out, "reference_output": ref_out[di]})
+                    aout = res["aouts"][(di, sup)]
+                    for path, o in (("render", out), ("render_async", aout)):
+                        stats["renders"] += 1
+                        evaluations += 1
+                        # oracle: only whitespace changes
+                        if erase(o) != ref_erased[di]:
+                            chk.finding("oracle:non-whitespace-changed",
+                                        f"markers/default_trim/suppression changed more than whitespace: {path}() of {src!r} "
+                                        f"default_trim={dt!r} suppress={sup} gives {o!r}; without whitespace control {ref_out[di]!r}",
+                                        {"source": src, "default_trim": dt, "suppress": sup, "data": d, "output": o,
+                                         "path": path, "reference_output": ref_out[di]})
+                        # oracle: verbatim when no trimming is in force
+                        if no_trim_markers and dt == "+" and not sup and o != ref_out[di]:
+                            chk.finding("oracle:not-verbatim",
+                                        f"no trimming in force but {path}() of {src!r} gives {o!r}, verbatim text is {ref_out[di]!r}",
+                                        {"source": src, "data": d, "output": o, "path": path,
+                                         "reference_output": ref_out[di]})
+                    # oracle: the async path writes exactly what the sync path writes
+                    if aout != out:
+                        chk.finding("oracle:async-differs-from-sync",
+                                    f"render_async() of {src!r} default_trim={dt!r} suppress={sup} gives {aout!r}, render() gives {out!r}",
+                                    {"source": src, "default_trim": dt, "suppress": sup, "data": d, "render": out,
+                                     "render_async": aout})
+                        if len(async_items) < 20:           # and the model is asked about the async output too
+                            cs = (f"(Build_cfg {WC_COQ[dt]} {C.cbool(sup)}) P{sfx} {C.cnat(npos)} {num} D{di}{sfx} TBL{sfx} "
+                                  f"(Some ({tbl(aout)}, {mk}, {rw}))")
+                            async_items.append({
+                                "case": "check_case " + cs,
+                                "model": f"observe (Build_cfg {WC_COQ[dt]} {C.cbool(sup)}) "
+                                         f"(fst (remark (digits4 {C.cnat(npos)} {num}) P{sfx})) D{di}{sfx}",
+                                "replay": {"source": src, "default_trim": dt, "suppress": sup, "data": d,
+                                           "render_async": aout, "render": out}})
                     if sup and out != res["outs"][(di, False)]:
                         stats["suppressed_outputs"] += 1
                     if out != ref_out[di]:
@@ -1042,7 +1075,7 @@ def main(chk: C.Check, build: C.Build) -> None:
                     exp.setdefault((dt, sup, di), []).append(outc.setdefault(term, len(outc)))
         if model_items is None:                          # no assignment lexed as printed (reported above)
             return
-        gitems: list[dict[str, Any]] = []
+        gitems: list[dict[str, Any]] = list(async_items)
         for (dt, sup, di), es in exp.items():
             es = [e if e >= 0 else len(outc) for e in es]
             args = (f"(Build_cfg {WC_COQ[dt]} {C.cbool(sup)}) P{sfx} {C.cnat(npos)} D{di}{sfx} TBL{sfx} OUTC{sfx} NS{sfx} "
@@ -1127,11 +1160,18 @@ def main(chk: C.Check, build: C.Build) -> None:
         for sup in (True, False):
             env = Environment(loader=DictLoader(partials))
             env.suppress_blank_control_flow_blocks = sup
-            try:
-                outs.append(env.from_string(src).render(**d))
-            except Exception as e:  # noqa: BLE001
-                outs.append(f"<{type(e).__name__}>")
-        evaluations += 2
+            for is_async in (False, True):
+                try:
+                    t = env.from_string(src)
+                    outs.append(asyncio.run(t.render_async(**d)) if is_async else t.render(**d))
+                except Exception as e:  # noqa: BLE001
+                    outs.append(f"<{type(e).__name__}>")
+        evaluations += 4
+        if outs[0] != outs[1] or outs[2] != outs[3]:
+            chk.finding("oracle:async-differs-from-sync",
+                        f"render_async() and render() differ on {src!r}: suppress on {outs[1]!r} / {outs[0]!r}, off {outs[3]!r} / {outs[2]!r}",
+                        {"source": src, "outputs [sync on, async on, sync off, async off]": outs})
+        outs = [outs[0], outs[2]]
         if erase(outs[0]) != erase(outs[1]):
             sig = "oracle:suppression-removed-text"
             chk.finding(sig, f"blank-block suppression removed text: {src!r} renders {outs[0]!r}, without suppression {outs[1]!r}",
